@@ -8,13 +8,10 @@ ALL = ["C%02d" % i for i in range(1, 21)]
 na = json.load(open(os.path.join(ROOT, "harness/not_applicable.json")))
 checks, served = [], []
 for pid in ALL:
-    try:
-        mod = importlib.import_module("harness.props." + pid.lower())
-    except ModuleNotFoundError:
-        continue
-    c = mod.CHECK
     if pid in na:
         continue
+    mod = importlib.import_module("harness.props." + pid.lower())
+    c = mod.CHECK
     served.append(pid)
     checks.append({
         "property_id": pid,
